@@ -749,6 +749,14 @@ func aliasGen(g *G, tier string) []M {
 					}
 				}
 			}
+			if at, ok := nd["a"].(M); ok && g.Chance(0.4) {
+				// lists that are there and empty (cleared, or made with room to grow): a copy has its own
+				for _, f := range NodeAttrs {
+					if _, has := at[f.GoName]; !has && (f.Kind == "strs" || f.Kind == "enums" || f.Kind == "persons" || f.Kind == "refs") && g.Chance(0.5) {
+						at[f.GoName] = []any{}
+					}
+				}
+			}
 			if at, ok := nd["a"].(M); ok && g.Chance(0.3) {
 				// dates protobuf calls invalid (negative nanos, past year 9999) are values like any other
 				fld := g.Pick([]string{"ReleaseDate", "BuildDate", "ValidUntilDate"})
@@ -844,7 +852,22 @@ func aliasGen(g *G, tier string) []M {
 					b["roots"] = rb
 				}
 			}
-			ops = append(ops, M{"op": "snap", "a": a, "b": b, "n": g.matchNode("p1"), "m": g.Node("p2", 0.6), "doc": doc, "meta": g.docMeta()})
+			// lists that hold a zero entry (an empty string, the UNKNOWN purpose) before other entries
+			zn, zm := g.matchNode("p1"), g.Node("p2", 0.6)
+			if g.Chance(0.5) {
+				for _, n := range []M{zn, zm} {
+					at, _ := n["a"].(M)
+					if at == nil {
+						at = M{}
+						n["a"] = at
+					}
+					at["Licenses"] = []any{"", "MIT", "Apache-2.0"}
+					at["Attribution"] = []any{"x", "", "y"}
+					at["PrimaryPurpose"] = []any{0.0, 1.0, 16.0}
+					at["FileTypes"] = []any{"", "TEXT"}
+				}
+			}
+			ops = append(ops, M{"op": "snap", "a": a, "b": b, "n": zn, "m": zm, "doc": doc, "meta": g.docMeta()})
 		}
 	}
 	return ops
